@@ -119,6 +119,17 @@ pub fn any_bytes<const N: usize>() -> [u8; N] {
     a
 }
 
+/// `dst[..src.len()] = src` by a plain loop (harness code does not use `copy_from_slice`, so that the loop bound of its
+/// stub can stay at the sizes the code under test needs)
+#[inline(always)]
+pub fn put(dst: &mut [u8], src: &[u8]) {
+    let mut i = 0;
+    while i < src.len() {
+        dst[i] = src[i];
+        i += 1;
+    }
+}
+
 /// `a == b` for equally long slices without `memcmp` (whose loop would need its own unwind bound)
 #[inline(always)]
 pub fn eq_bytes(a: &[u8], b: &[u8]) -> bool {
